@@ -1226,7 +1226,7 @@ class OdeSystem(object):
         return print_str
 
     def __getitem__(self, index):
-        if isinstance(index, int):
+        if isinstance(index, (int, np.integer)):
             if index > self.counter:
                 raise IndexError(
                     "index {} out of bounds for integrations with {} steps".format(index, self.counter + 1))
